@@ -75,6 +75,15 @@ def fault_matrix_cases(tier, rng):
                     data = bytes(rng.getrandbits(8) for _ in range(9))
                     yield campaign.TransferCase(cfg, [data], [Fault("s2d", k, "flip", rng.randint(1, 3))], tag="c14m")
                     yield campaign.TransferCase(cfg, [data], [], None, reject_round=k, tag="c14m")
+            # an IGNOREd limit fault, polled several times per timer interval: declared at the expiries only (F22, F34)
+            if h == 3:
+                for mode, closure, cut_dir, cut in ((0, False, "d2s", 0), (0, True, "s2d", 3), (1, True, "d2s", 0), (1, True, "s2d", 3),
+                                                    (1, False, "s2d", 2)):
+                    cfg = Cfg(mode=mode, closure=closure, max_seg=4, ack_limit=2, nak_limit=2, check_limit=2, imm_nak=False,
+                              ack_ms=1000, nak_ms=1000, check_ms=1000, cktype=3, **tables((1, 7, 10)))
+                    sc = timers.SilentCase(cfg, 9, cut_dir, cut, None, tag="c14m", poll_ms=250)
+                    sc.max_rounds = 60
+                    yield sc
             # Filestore Rejection (4) declared while the destination file is created: at the transaction start, and by the
             # re-sent Metadata PDU while the deferred NAK procedure is already running (Metadata lost, EOF first)
             for drop_md in (False, True):
